@@ -171,20 +171,27 @@ def gen_dataset(rng, prof):
     d.scens.append((1, [[1, 2], [], [], [], [], [], [], [], []]))
     d.scens.append((2, [[1], [], [], [], [], [], [], [], []]))
     lines = [l[0] for l in d.lines]
-    lists = [[1, 2], [], [], [], [], [], [], [], []]
-    k = rng.randint(1, 7)
-    if k in (1, 5, 6):
-        lists[k] = rng.sample(lines, rng.randint(1, max(1, len(lines) - 1)))
-    elif k == 2:
-        lists[2] = [rng.randint(1, 2)]
-    elif k == 3:
-        lists[3] = [rng.randint(1, 2)]
-    elif k == 4:
-        lists[6] = [rng.randint(0, 2)]
-    elif k == 7:
-        lists[7] = [rng.randint(1, 2)]
-        lists[5] = rng.sample(lines, 1)
+
+    def restricted():
+        lists = [[1, 2], [], [], [], [], [], [], [], []]
+        k = rng.randint(1, 7)
+        if k in (1, 5, 6):
+            lists[k] = rng.sample(lines, rng.randint(1, max(1, len(lines) - 1)))
+        elif k == 2:
+            lists[2] = [rng.randint(1, 2)]
+        elif k == 3:
+            lists[3] = [rng.randint(1, 2)]
+        elif k == 4:
+            lists[6] = [rng.randint(0, 2)]
+        elif k == 7:
+            lists[7] = [rng.randint(1, 2)]
+            lists[5] = rng.sample(lines, 1)
+        return lists
+    lists = restricted()
     d.scens.append((3, lists))
+    # a fourth scenario AFTER a restricted one: unrestricted half of the time (a loader that lets lists of one scenario leak
+    # into the next is only visible on a later, less restricted scenario)
+    d.scens.append((4, restricted() if rng.chance(0.5) else [[1, 2], [], [], [], [], [], [], [], []]))
     return d
 
 
@@ -244,8 +251,14 @@ def gen_params(rng, d, prof, fwd):
         maxtt = rng.choice([MAX_INT, MAX_INT, 10 * g, 20 * g, 30 * g, 40 * g, 60 * g])
         maxtr = rng.choice([MAX_INT, g, 2 * g, 5 * g])
     maxfw = rng.choice(prof.get("maxfws", [-1, -1, -1, 1800, 600, 300, 100]))
-    scen = rng.choice([1, 1, 1, 2, 3])
-    return dict(scen=scen, time=t, minw=minw, maxtt=maxtt, maxacc=1200, maxegr=1200, maxtr=maxtr, maxfw=maxfw, fwd=1 if fwd else 0)
+    scen = rng.choice([1, 1, 1, 2, 3, 4, 4])
+    # access / egress maxima: table rows never exceed 600 s, so every value >= 600 and "no limit" (MAX_INT, sent as 0 or a
+    # negative number over HTTP) must give the same answer as the default 1200; large finite values exercise the walking-radius
+    # arithmetic in front of the router
+    walk_limits = [1200, 1200, 1200, MAX_INT, 900, 40000, 99999, 2000000]
+    maxacc = rng.choice(walk_limits)
+    maxegr = rng.choice(walk_limits)
+    return dict(scen=scen, time=t, minw=minw, maxtt=maxtt, maxacc=maxacc, maxegr=maxegr, maxtr=maxtr, maxfw=maxfw, fwd=1 if fwd else 0)
 
 
 def plan_journey(rng, d, minw):
